@@ -188,8 +188,23 @@ def forbidden_scan():
     return bad
 
 
+def regenerate_all():
+    """Tie A: regenerate coq/gen/*.v from /repo's current sources (files are rewritten only when they change)."""
+    tdir = os.path.join(ROOT, 'translator')
+    if tdir not in sys.path:
+        sys.path.insert(0, tdir)
+    import importlib
+    res = {}
+    for name in ('gen_tables', 'gen_protos', 'gen_consts', 'gen_globals', 'gen_cpuid'):
+        if os.path.exists(os.path.join(tdir, name + '.py')):
+            m = importlib.import_module(name)
+            res[name] = m.main()
+    return res
+
+
 def build_model(targets=None):
     """Build the Coq theories (all, or the given .vo targets), extraction and the OCaml driver."""
+    regenerate_all()
     with Lock('coq'):
         coq_makefile()
         tgt = ' '.join(targets) if targets else ''
